@@ -192,10 +192,21 @@ def small_configs(rng, tier):
     return out
 
 
+def r_mesh(ctx, a):
+    """Round trips over level axes under a device mesh (the production configuration of the fast
+    implementation): level counts not divisible by the z mesh, x meshes of size 4, all field ranks
+    (oracle shared with the C07 plugin)."""
+    from props import C07
+    return C07.r_grid(ctx, dict(a, no_model=True))
+
+
 def generate(ctx):
     rng = ctx.rng
     cfgs = small_configs(rng, ctx.tier)
     yield 'factory', {}
+    for mesh, K in ([([2, 1, 1], 3), ([1, 4, 2], 2)] if ctx.tier == 'quick' else
+                    [([2, 1, 1], 3), ([1, 4, 2], 2), ([4, 2, 1], 5), ([2, 2, 2], 7)]):
+        yield 'mesh', {'mesh': mesh, 'L': 7, 'K': K, 'base': 1, 'seed': int(rng.integers(0, 2 ** 31))}
     for (M, I) in ([(1, 1), (1, 4), (2, 3), (2, 2), (3, 5), (3, 8), (5, 9), (5, 16), (4, 4)] if ctx.tier == 'quick' else
                    [(1, 1), (1, 4), (2, 3), (2, 2), (3, 5), (3, 8), (5, 9), (5, 16), (4, 4), (8, 25), (12, 37), (22, 64), (32, 64), (43, 128)]):
         yield 'fourier_closed_form', {'M': M, 'I': I}
@@ -537,4 +548,4 @@ def r_fourier_closed_form(ctx, a):
         ctx.count('fourier:aliased pairs with Gram error > 0.1', int((err[~ok_pairs] > 0.1).sum()))
 
 
-RUNNERS = {'fourier_closed_form': r_fourier_closed_form, 'factory': r_factory, 'layout': r_layout, 'tables': r_tables, 'transforms': r_transforms}
+RUNNERS = {'mesh': r_mesh, 'fourier_closed_form': r_fourier_closed_form, 'factory': r_factory, 'layout': r_layout, 'tables': r_tables, 'transforms': r_transforms}
